@@ -500,8 +500,8 @@ pub fn run(a: &Args, m: &mut Mon) {
             explore(m, false, &ends, &alpha, 1_000_000);
         }
     }
-    let nh = a.n(300_000, 30_000_000);
+    let nh = a.n(1_200_000, 100_000_000);
     workload_a(a, m, &mut r, nh, false, 100_000);
-    let nf = a.n(1_600, 60_000);
+    let nf = a.n(6_000, 60_000);
     workload_b(a, m, &mut r, nf, false);
 }
